@@ -3,6 +3,7 @@ import NavisModel.Proofs.VolCacheLemmas
 import NavisModel.Gen.VolCache
 import NavisModel.Proofs.InVolumeShapeLemmas
 import NavisModel.Gen.InVolume
+import NavisModel.Gen.SnapCast
 /-!
 # C18 — inside/outside tests and nearest-neighbour snapping are geometrically exact
 
@@ -859,5 +860,59 @@ theorem pyoc_more_rays_never_add_points {α : Type} (inBBox : α → Bool) (rays
 
 example : pyocLoop (fun i : Nat => i < 3) [fun i => i != 1, fun i => i != 2] [0, 1, 2, 3] = [true, false, false, false] := by
   decide
+
+/-! ## 10. `snap` with non-integer queries: the query must not be truncated
+
+Queries in tenths (`q10 = 10·q`), integer data rows, `d2 q10 (scale10 v)` = 100 × squared Euclidean distance.  `snapQ c isInt`
+is `snap` with the query cast the way the source casts it (`c`, re-extracted into `Gen.SnapCast`). -/
+
+/-- **A query that is not cast to an integer dtype is answered exactly** — for every data table and every (decimal) query:
+the returned row exists, the returned value is 100 × its squared distance to the TRUE query, and no row is nearer.  Holds when
+the cast is `float64` / not the data's dtype, and — whatever the cast — when the data are floats. -/
+theorem snap_query_not_truncated (c : QCast) (dataIsInt : Bool) (h : c ≠ .data ∨ dataIsInt = false) (data : List P3)
+    (q10 : P3) (k : Nat) (m : Int) (hs : snapQ c dataIsInt data q10 = some (k, m)) :
+    ∃ v, data[k]? = some v ∧ m = d2 q10 (scale10 v) ∧ ∀ r ∈ data, d2 q10 (scale10 v) ≤ d2 q10 (scale10 r) :=
+  snapQ_spec c dataIsInt h data q10 k m hs
+
+/-- **Tie to the source (translator).**  `TreeNeuron.snap` and `Dotprops.snap` cast the query to `np.float64`, never to the dtype
+of the node table / point array (casting to the table's dtype truncates every non-integer query on integer tables). -/
+theorem tree_and_dotprops_queries_are_not_truncated :
+    Navis.Gen.SnapCast.castOf "TreeNeuron" = .float64 ∧ Navis.Gen.SnapCast.castOf "Dotprops" = .float64 := by decide
+
+/-- … hence skeletons and point clouds of every coordinate dtype snap every decimal query to a true nearest row. -/
+theorem tree_and_dotprops_snap_exact (cls : String) (hc : cls = "TreeNeuron" ∨ cls = "Dotprops") (dataIsInt : Bool)
+    (data : List P3) (q10 : P3) (k : Nat) (m : Int)
+    (hs : snapQ (Navis.Gen.SnapCast.castOf cls) dataIsInt data q10 = some (k, m)) :
+    ∃ v, data[k]? = some v ∧ m = d2 q10 (scale10 v) ∧ ∀ r ∈ data, d2 q10 (scale10 v) ≤ d2 q10 (scale10 r) := by
+  refine snap_query_not_truncated _ dataIsInt (Or.inl ?_) data q10 k m hs
+  rcases hc with rfl | rfl
+  · rw [tree_and_dotprops_queries_are_not_truncated.1]; decide
+  · rw [tree_and_dotprops_queries_are_not_truncated.2]; decide
+
+/-- **Mesh neurons — partial.**  Full statement wanted: the same for `MeshNeuron.snap` and every vertex dtype.  `MeshNeuron.snap`
+casts the query to `self.vertices.dtype`; proved: on float vertices (what trimesh processing produces) the answer is exact.  On
+integer vertices (`MeshNeuron(…, process=False)`, `m.vertices = int_array`) the query is truncated — open finding, counter-example
+below. -/
+theorem mesh_snap_exact_on_float_vertices_partial (data : List P3) (q10 : P3) (k : Nat) (m : Int)
+    (hs : snapQ (Navis.Gen.SnapCast.castOf "MeshNeuron") false data q10 = some (k, m)) :
+    ∃ v, data[k]? = some v ∧ m = d2 q10 (scale10 v) ∧ ∀ r ∈ data, d2 q10 (scale10 v) ≤ d2 q10 (scale10 r) :=
+  snap_query_not_truncated _ false (Or.inr rfl) data q10 k m hs
+
+/-- **What truncation does** (cast to the data's integer dtype): rows at x = 0, 1, 2, 3 and the query (2.9, 0, 0) — the answer is
+the row at x = 2 "at distance 0" instead of the row at x = 3 at distance 0.1; negative coordinates truncate toward zero. -/
+theorem truncated_query_snaps_to_wrong_node :
+    let data : List P3 := [⟨0, 0, 0⟩, ⟨1, 0, 0⟩, ⟨2, 0, 0⟩, ⟨3, 0, 0⟩]
+    snapQ .data true data ⟨29, 0, 0⟩ = some (2, 0) ∧ snapQ .float64 true data ⟨29, 0, 0⟩ = some (3, 1)
+      ∧ snapQ .data false data ⟨29, 0, 0⟩ = some (3, 1) ∧ castQuery .data true ⟨-29, 16, 5⟩ = ⟨-20, 10, 0⟩ := by decide
+
+theorem checkNearestQ_sound (data : List P3) (q10 : P3) (ix : Nat) (num den : Int) :
+    checkNearestQ data q10 ix num den = true ↔
+      ∃ v, data[ix]? = some v ∧ (∀ r ∈ data, d2 q10 (scale10 v) ≤ d2 q10 (scale10 r)) ∧ 0 < den
+        ∧ (100 * (num * num) - d2 q10 (scale10 v) * (den * den)).natAbs * 2 ^ 32
+            ≤ ((d2 q10 (scale10 v) * 2 ^ 20 + 100 * 2 ^ 12) * (den * den)).natAbs := by
+  unfold checkNearestQ
+  cases h : data[ix]? with
+  | none => simp
+  | some v => simp [List.all_eq_true, and_assoc]
 
 end Navis.Props.C18
